@@ -51,7 +51,7 @@ package exec
 //@   ensures  failed: implies(err != nil && err != io.EOF, n == 0 && r.bytes == old(r.bytes))
 //@   ensures  sticky: implies(old(r.err) != nil, n == 0 && err == old(r.err) && r.bytes == old(r.bytes))
 //@   ensures  same-source: r.openerAt == old(r.openerAt)
-//@   modifies r.err, r.reader, r.bytes, r.retries, data[0:len(data)], Reader.rsrc, Reader.rpos
+//@   modifies r.err, r.reader, r.bytes, r.retries, data[0:len(data)], Reader.rsrc, Reader.rpos, WCloser.zcloses, WCloser.zcloseErr
 //@   loop 1 invariant retryInv(r) && r.bytes == old(r.bytes) && r.openerAt == old(r.openerAt) && r.err == old(r.err)
 
 // ---- C15: task stores are commit-atomic ----
